@@ -72,10 +72,13 @@ type c02Ev struct{ code, a, b, c int64 }
 
 // c02Scn is a scenario: the story told to the real client.
 type c02Scn struct {
-	N       int   // number of chunks offered
-	Cap     int   // defs.ForwarderMaxPendingChunksForAck
-	MaxAge  int   // max session duration in ms (0: none)
-	Flavor  int   // 0: socket-like connection (operations fail once closed); 1: datadog-like (Close is a no-op)
+	N      int // number of chunks offered
+	Cap    int // defs.ForwarderMaxPendingChunksForAck
+	MaxAge int // max session duration in ms (0: none)
+	Flavor int // 0: socket-like connection (operations fail once closed); 1: datadog-like (Close is a no-op);
+	// 2: the real fluentdforward connection against a scripted fake Fluentd (c02_fluentd.go)
+	Limit   int   // ms after which the driver fires its remaining actions (0: c02Limit)
+	Big     int   // flavour 2: payload of every chunk in KiB (large chunks make a write block when the server stalls)
 	Bug     int   // 1: outside the connection contract: a blocked ack read ignores Close and the deadline
 	Conn    []int // outcome of the i-th connect, send, ack read, ping (0 beyond the end of the script)
 	Send    []int
@@ -112,9 +115,16 @@ func c02ParseInts(s string) []int {
 }
 
 func (s *c02Scn) String() string {
+	big := ""
+	if s.Big > 0 {
+		big = fmt.Sprintf(" big=%d", s.Big)
+	}
+	if s.Limit > 0 {
+		big += fmt.Sprintf(" limit=%d", s.Limit)
+	}
 	return fmt.Sprintf("n=%d cap=%d age=%d fl=%d bug=%d conn=%s send=%s ack=%s ping=%s push=%s stop=%d rev=%d gap=%d sig=%s",
 		s.N, s.Cap, s.MaxAge, s.Flavor, s.Bug, c02Ints(s.Conn), c02Ints(s.Send), c02Ints(s.Ack), c02Ints(s.Ping),
-		c02Ints(s.Push), s.Stop, s.StopRev, s.StopGap, c02Ints(s.Sig))
+		c02Ints(s.Push), s.Stop, s.StopRev, s.StopGap, c02Ints(s.Sig)) + big
 }
 
 func c02ParseScn(txt string) (*c02Scn, error) {
@@ -136,6 +146,10 @@ func c02ParseScn(txt string) (*c02Scn, error) {
 			s.Flavor = iv
 		case "bug":
 			s.Bug = iv
+		case "big":
+			s.Big = iv
+		case "limit":
+			s.Limit = iv
 		case "conn":
 			s.Conn = c02ParseInts(kv[1])
 		case "send":
@@ -219,6 +233,8 @@ func c02Setup() {
 		defs.ForwarderBatchAckTimeout = c02AckTimeout
 		defs.ForwarderAckerStopTimeout = c02AckerStop
 		defs.IntermediateChannelTimeout = c02ChannelWait
+		defs.ForwarderBatchSendMinimumSpeed = 1 << 40 // no length-dependent part of the send timeout
+		defs.ForwarderConnectionTimeout = 200 * time.Millisecond
 		// the client registers for SIGUSR1 only inside processInput; keep the process alive before that
 		sink := make(chan os.Signal, 64)
 		signal.Notify(sink, syscall.SIGUSR1)
@@ -250,6 +266,8 @@ type c02World struct {
 	stopCh      chan struct{} // closed with the first half of the stop request
 	endCh       chan struct{} // closed when the scenario is over: releases whatever is still blocked
 	finishedCh  chan struct{}
+
+	fluentd *c02Fluentd
 
 	nConn, nSend, nAck, nPing int
 	panicked                  string
@@ -289,7 +307,11 @@ func (w *c02World) fire(force bool) {
 		if w.pushed < w.scn.N && !inClosed && (force || w.cond(c02At(w.scn.Push, w.pushed))) {
 			w.pushed++
 			w.log(c02Offer, int64(w.pushed), 0, 0)
-			w.inputCh <- base.LogChunk{ID: c02ChunkID(w.pushed), Data: []byte{byte(w.pushed)}}
+			data := []byte{byte(w.pushed)}
+			if w.scn.Flavor == 2 {
+				data = c02ForwardChunk(c02ChunkID(w.pushed), w.scn.Big*1024)
+			}
+			w.inputCh <- base.LogChunk{ID: c02ChunkID(w.pushed), Data: data}
 			progress, force = true, false
 			continue
 		}
@@ -521,6 +543,13 @@ func c02RunScenario(scn *c02Scn) *c02Result {
 		finishedCh:  make(chan struct{}),
 		sigFired:    make([]bool, len(scn.Sig)),
 	}
+	limit := c02Limit
+	if scn.Limit > 0 {
+		limit = time.Duration(scn.Limit) * time.Millisecond
+	}
+	if scn.Flavor == 2 {
+		c02LearnPing()
+	}
 	w.lastProgress = time.Now()
 	args := base.ChunkConsumerArgs{
 		InputChannel: w.inputCh,
@@ -542,8 +571,14 @@ func c02RunScenario(scn *c02Scn) *c02Result {
 			close(w.finishedCh)
 		},
 	}
+	opener := w.openConn
+	if scn.Flavor == 2 {
+		w.fluentd = c02NewFluentd(w)
+		defer w.fluentd.shutdown()
+		opener = w.openReal
+	}
 	worker := baseoutput.NewClientWorker(logger.WithField("c02", serial), args,
-		promreg.NewMetricFactory(fmt.Sprintf("c02w%d_", serial), nil, nil), w.openConn,
+		promreg.NewMetricFactory(fmt.Sprintf("c02w%d_", serial), nil, nil), opener,
 		time.Duration(scn.MaxAge)*time.Millisecond)
 
 	w.mu.Lock()
@@ -563,7 +598,7 @@ loop:
 			break loop
 		case <-tick.C:
 			w.mu.Lock()
-			if (time.Since(w.lastProgress) > c02Stall || time.Since(start) > c02Limit) && w.stopStage < 2 {
+			if (time.Since(w.lastProgress) > c02Stall || time.Since(start) > limit) && w.stopStage < 2 {
 				w.lastProgress = time.Now()
 				w.fire(true)
 			}
